@@ -28,9 +28,20 @@ fn emit_reprint(sink: &mut Sink, cfg: &str, doc: &[u8], tag: &str) {
     sink.case("reprint", &[cfg, &hexf(doc)], &o, tag, doc.len() > 1);
 }
 
+/// as_f64 of the literal `1` followed by `n` zeros with exponent `e-<m>` (described by its parameters: the text is too long for a case line)
+fn emit_accbig(sink: &mut Sink, cfg: &str, n: usize, m: usize) {
+    let lit = format!("1{}e-{}", "0".repeat(n), m);
+    let o = g(move || match lit.parse::<Number>() { Err(_) => "ERR".into(), Ok(x) => x.as_f64().map(|f| format!("{:016x}", f.to_bits())).unwrap_or("N".into()) });
+    sink.case("accbig", &[cfg, &n.to_string(), &m.to_string()], &o, &format!("accbig:{}", if o == "N" { "none" } else { "some" }), true);
+}
+
 pub fn replay(sink: &mut Sink, toks: &[&str]) {
     if toks.len() < 3 { return; }
     let cfg = cfg_tag();
+    if toks[0] == "accbig" {
+        if toks.len() >= 4 { if let (Ok(n), Ok(m)) = (toks[2].parse::<usize>(), toks[3].parse::<usize>()) { emit_accbig(sink, &cfg, n, m); } }
+        return;
+    }
     let b = unhex(toks[2]);
     match toks[0] { "numtext" => emit_numtext(sink, &cfg, std::str::from_utf8(&b).unwrap_or(""), "replay"), _ => emit_reprint(sink, &cfg, &b, "replay") }
 }
@@ -52,6 +63,9 @@ pub fn run(sink: &mut Sink, thorough: bool, seed: u64) {
         lits.push(s);
     }
     for l in &lits { emit_numtext(sink, &cfg, l, "lit"); }
+    // as_f64 = str::parse::<f64> on texts beyond 65 536 bytes: std's exponent accumulator saturates (thorough tier only: the model needs
+    // a minute for the 700 000-digit one; known finding C20-as-f64-exponent-saturation)
+    if thorough { for (n, m) in [(70000usize, 70000usize), (100000, 100000), (700000, 700000)] { emit_accbig(sink, &cfg, n, m); } }
     // documents: arrays of literals with whitespace
     for _ in 0..(if thorough { 5000 } else { 500 }) {
         let k = 1 + r.below(5);
